@@ -7,7 +7,8 @@ All == Texts(Full) \cup Long(LongLo, LongHi)
 OkTexts == {t \in All : Class(t) = "ok"}
 \* theorems on the model
 RoundTrip == \A t \in OkTexts : PrintL(ParseL(t)) = t
-Injective == \A t1, t2 \in OkTexts : t1 # t2 => ParseL(t1) # ParseL(t2)
+\* distinct texts give distinct labels: as many labels as texts (a pairwise comparison would be quadratic)
+Injective == Cardinality({ParseL(t) : t \in OkTexts}) = Cardinality(OkTexts)
 Canonical == {ParseL(t) : t \in OkTexts}
 BackTrip == \A l \in Canonical : Class(PrintL(l)) = "ok" /\ ParseL(PrintL(l)) = l
 TooLong == \A t \in All : (Len(t) > 8 /\ "sp" \notin Elems(t)) => Class(t) = "err"
